@@ -89,10 +89,10 @@ def mes_table(ctx):
                 gs = [_sh(strip_ver(g)) for g in gs]
                 r = _sh(strip_ver(r))
                 if r == "1024":
-                    if not any(re.match(r"^eq\(1024, matches_empty_string\(.* as Some\.0\)\)$|^eq\(matches_empty_string\(.* as Some\.0\), 1024\)$", g) for g in gs):
+                    if not any(re.match(r"^eq\(1024, matches_empty_string\(.* as Some\.0\)\)$|^eq\(matches_empty_string\(.* as Some\.0\), 1024\)$|^matches_empty_string\(.* as Some\.0\)=1024$", g) for g in gs):
                         good, why = False, "NEVER is answered without an operand that answers NEVER"
                 elif r == "7":
-                    if any(re.match(r"^!eq\(7, matches_empty_string\(", g) or re.match(r"^!eq\(matches_empty_string\(.*\), 7\)$", g) for g in gs):
+                    if any(re.match(r"^!eq\(7, matches_empty_string\(", g) or re.match(r"^!eq\(matches_empty_string\(.*\), 7\)$", g) or re.match(r"^matches_empty_string\(.*\)=(?!7$)", g) for g in gs):
                         good, why = False, "ANYWHERE is answered although an operand is not ANYWHERE"
             _rec(d, key, good, "Sequence::matches_empty_string: %s" % why, b.loc())
         else:
